@@ -538,8 +538,41 @@ func (c *Ctx) memoRegistered(R string, rg memoRegistry) []Obligation {
 					}
 				}
 			}
+			if !registered {
+				// registration through a helper: a call, on the same paths, of a function that appends one of its
+				// parameters to the list, with the memo's object as that argument
+				eachInstr(fn, func(in2 ssa.Instruction) {
+					call, isC := in2.(*ssa.Call)
+					if !isC {
+						return
+					}
+					g := call.Call.StaticCallee()
+					if g == nil || !c.isRepoFn(g) || g.Blocks == nil {
+						return
+					}
+					if !(call.Block() == st.Block() || dominates(st, call) && postDominatesReturnFree(st, call)) {
+						return
+					}
+					for _, st3 := range storesToField(g, rg.list) {
+						app, isA := st3.Val.(*ssa.Call)
+						if !isA {
+							continue
+						}
+						if b, isB := app.Call.Value.(*ssa.Builtin); !isB || b.Name() != "append" || len(app.Call.Args) < 2 {
+							continue
+						}
+						for _, el := range variadicElems(app.Call.Args[1]) {
+							for j := range g.Params {
+								if isParamN(g, el, j) && j < len(call.Call.Args) && sameObject(call.Call.Args[j], obj) {
+									registered = true
+								}
+							}
+						}
+					}
+				})
+			}
 			if registered {
-				obs = append(obs, ok(R, con, c.InstrPos(st), "append(d."+rg.list.Name()+", obj) in the same block as the memo store"))
+				obs = append(obs, ok(R, con, c.InstrPos(st), "append(d."+rg.list.Name()+", obj), directly or through a helper, on the same paths as the memo store"))
 			} else {
 				obs = append(obs, bad(R, con, c.InstrPos(st), fmt.Sprintf("the memo is set without registering the object in %s: %s never clears it, so a later Process run (after more modules were loaded) reuses a result computed from the earlier module set", rg.list.Name(), c.FnName(rg.resetFn))))
 			}
